@@ -16,8 +16,10 @@ import (
 )
 
 type embed struct {
-	typ string
-	ptr bool
+	typ   string
+	ptr   bool
+	iface bool // an embedded interface; nilval: left nil by the constructor
+	nilv  bool
 }
 
 type mdef struct {
@@ -47,36 +49,6 @@ var methodPool = []string{"M0", "M1", "M2", "u3", "u4"}
 
 func genFamily(rt *rapid.T) family {
 	var f family
-	nt := rapid.IntRange(4, 9).Draw(rt, "ntypes")
-	for i := 0; i < nt; i++ {
-		t := tdef{name: fmt.Sprintf("T%d", i)}
-		t.kind = rapid.SampledFrom([]string{"struct", "struct", "struct", "int", "slice"}).Draw(rt, "kind")
-		if t.kind == "struct" && i > 0 {
-			ne := rapid.IntRange(0, 2).Draw(rt, "nembed")
-			seen := map[string]bool{}
-			for e := 0; e < ne; e++ {
-				j := rapid.IntRange(0, i-1).Draw(rt, "embedded")
-				et := f.types[j]
-				if seen[et.name] {
-					continue
-				}
-				seen[et.name] = true
-				ptr := rapid.Bool().Draw(rt, "embedptr")
-				t.embeds = append(t.embeds, embed{et.name, ptr})
-			}
-		}
-		nm := rapid.IntRange(0, 3).Draw(rt, "nmethods")
-		seen := map[string]bool{}
-		for m := 0; m < nm; m++ {
-			name := rapid.SampledFrom(methodPool).Draw(rt, "mname")
-			if seen[name] {
-				continue
-			}
-			seen[name] = true
-			t.methods = append(t.methods, mdef{name, rapid.Bool().Draw(rt, "ptrrecv")})
-		}
-		f.types = append(f.types, t)
-	}
 	ni := rapid.IntRange(3, 6).Draw(rt, "nifaces")
 	for i := 0; i < ni; i++ {
 		d := idef{name: fmt.Sprintf("I%d", i)}
@@ -93,6 +65,43 @@ func genFamily(rt *rapid.T) family {
 			}
 		}
 		f.ifaces = append(f.ifaces, d)
+	}
+	nt := rapid.IntRange(4, 9).Draw(rt, "ntypes")
+	for i := 0; i < nt; i++ {
+		t := tdef{name: fmt.Sprintf("T%d", i)}
+		t.kind = rapid.SampledFrom([]string{"struct", "struct", "struct", "int", "slice"}).Draw(rt, "kind")
+		if t.kind == "struct" {
+			seen := map[string]bool{}
+			if i > 0 {
+				ne := rapid.IntRange(0, 2).Draw(rt, "nembed")
+				for e := 0; e < ne; e++ {
+					j := rapid.IntRange(0, i-1).Draw(rt, "embedded")
+					et := f.types[j]
+					if seen[et.name] {
+						continue
+					}
+					seen[et.name] = true
+					ptr := rapid.Bool().Draw(rt, "embedptr")
+					t.embeds = append(t.embeds, embed{typ: et.name, ptr: ptr})
+				}
+			}
+			// embedded interfaces promote their methods too
+			if rapid.IntRange(0, 2).Draw(rt, "embediface") == 0 {
+				d := f.ifaces[rapid.IntRange(0, ni-1).Draw(rt, "embeddediface")]
+				t.embeds = append(t.embeds, embed{typ: d.name, iface: true, nilv: rapid.IntRange(0, 3).Draw(rt, "nilv") == 0})
+			}
+		}
+		nm := rapid.IntRange(0, 3).Draw(rt, "nmethods")
+		seen := map[string]bool{}
+		for m := 0; m < nm; m++ {
+			name := rapid.SampledFrom(methodPool).Draw(rt, "mname")
+			if seen[name] {
+				continue
+			}
+			seen[name] = true
+			t.methods = append(t.methods, mdef{name, rapid.Bool().Draw(rt, "ptrrecv")})
+		}
+		f.types = append(f.types, t)
 	}
 	return f
 }
@@ -155,7 +164,11 @@ func (f family) declSource() string {
 		case "struct":
 			fmt.Fprintf(&sb, "func mk%s(s int) %s {\n\tx := %s{v: s}\n", t.name, t.name, t.name)
 			for k, e := range t.embeds {
-				if e.ptr {
+				if e.iface {
+					if !e.nilv {
+						fmt.Fprintf(&sb, "\tx.%s = implAll{v: s*10 + %d}\n", e.typ, k+1)
+					}
+				} else if e.ptr {
 					fmt.Fprintf(&sb, "\t{\n\t\te := mk%s(s*10 + %d)\n\t\tx.%s = &e\n\t}\n", e.typ, k+1, e.typ)
 				} else {
 					fmt.Fprintf(&sb, "\tx.%s = mk%s(s*10 + %d)\n", e.typ, e.typ, k+1)
@@ -164,7 +177,9 @@ func (f family) declSource() string {
 			sb.WriteString("\treturn x\n}\n\n")
 			fmt.Fprintf(&sb, "func dump%s(x %s) string {\n\ts := \"%s{\" + itoa(x.v)\n", t.name, t.name, t.name)
 			for _, e := range t.embeds {
-				if e.ptr {
+				if e.iface {
+					fmt.Fprintf(&sb, "\ts += \" \" + dumpAny(x.%s)\n", e.typ)
+				} else if e.ptr {
 					fmt.Fprintf(&sb, "\tif x.%s == nil {\n\t\ts += \" nil\"\n\t} else {\n\t\ts += \" *\" + dump%s(*x.%s)\n\t}\n", e.typ, e.typ, e.typ)
 				} else {
 					fmt.Fprintf(&sb, "\ts += \" \" + dump%s(x.%s)\n", e.typ, e.typ)
@@ -187,8 +202,13 @@ func (f family) declSource() string {
 		}
 		sb.WriteString("}\n\n")
 	}
+	// a type that implements every interface of the family (value receivers), for embedded interface fields
+	sb.WriteString("type implAll struct{ v int }\n\n")
+	for _, m := range methodPool {
+		fmt.Fprintf(&sb, "func (r implAll) %s() int {\n\tlog += \"[implAll.%s recv=\" + itoa(r.v) + \"]\"\n\tr.v += 100\n\treturn %d\n}\n\n", m, m, 500+len(m))
+	}
 	// dumpAny
-	sb.WriteString("func dumpAny(v interface{}) string {\n\tswitch x := v.(type) {\n\tcase nil:\n\t\treturn \"nil\"\n")
+	sb.WriteString("func dumpAny(v interface{}) string {\n\tswitch x := v.(type) {\n\tcase nil:\n\t\treturn \"nil\"\n\tcase implAll:\n\t\treturn \"implAll(\" + itoa(x.v) + \")\"\n")
 	for _, t := range f.types {
 		fmt.Fprintf(&sb, "\tcase %s:\n\t\treturn dump%s(x)\n\tcase *%s:\n\t\tif x == nil {\n\t\t\treturn \"(*%s)(nil)\"\n\t\t}\n\t\treturn \"&\" + dump%s(*x)\n", t.name, t.name, t.name, t.name, t.name)
 	}
